@@ -8,8 +8,8 @@ set_option linter.unusedVariables false
 section
 variable {c0 : Cfg} {n0 : Nat} {ids0 : List Nat}
 
-chan_invariant frame : (Frame c0 n0 ids0) oof (fun _ h => h)
-  leaf (repeat' (first
+chan_invariant frame : (Frame c0 n0 ids0) oofBy (fun _ h => h)
+  leafBy (repeat' (first
                   | frame_step hgo
                   | with_reducible apply sqChoose_frame hgo
                   | with_reducible apply sqOpen_frame hgo
@@ -19,7 +19,7 @@ chan_invariant frame : (Frame c0 n0 ids0) oof (fun _ h => h)
                   | with_reducible apply sqCommit_frame hgo
                   | with_reducible apply sqAfter_frame hgo
                   | (with_reducible apply foldl_inv; intro _ _ _)))
-  except
+  exceptBodies
 
 end
 end Cares.Chan
